@@ -26,6 +26,7 @@ def dispatch (fields : List String) : Verdict :=
   | "C15" :: rest => handleC15 rest
   | "C16" :: rest => handleC16 rest
   | "C17" :: rest => handleC17 rest
+  | "C18" :: rest => handleC18 rest
   | "C02" :: rest => handleC02 rest
   | "C03" :: rest => handleC03 rest
   | "C04" :: rest => handleC04 rest
